@@ -2,7 +2,8 @@
 C13 — origin finders return the true centre of symmetric images and follow shifts.
 
 proofs : lean/PyAbel/Props/C13.lean (centre of mass of a symmetric profile = its centre; translation / scale laws;
-         autoconvolution bounded by the energy and attaining it at the symmetry centre)
+         autoconvolution bounded by the energy and attaining it at the symmetry centre — and, for a non-zero profile,
+         nowhere else: the argmax is unique, so "first argmax" is the centre)
 K      : find_origin(com / convolution / image_center) vs the Lean model, bit-for-bit on integer-valued images
 S      : point-symmetric random images about every centre on the half-pixel grid near the middle; whole-pixel
          translations; positive scaling; axes; Gaussian spots for the Gaussian fit
